@@ -1018,6 +1018,7 @@ class TransactionEvaluator:
 
         for op, comparator in zip(node.ops, node.comparators):
             right = self.evaluate(comparator)
+            carried = right  # the next link of a chain compares against the operand as written
 
             # Handle date comparisons: date >= "2025-01-01"
             if isinstance(left, date_type) and isinstance(right, str):
@@ -1059,7 +1060,7 @@ class TransactionEvaluator:
 
             if not result:
                 return False
-            left = right
+            left = carried
 
         return True
 
